@@ -4,6 +4,7 @@ namespace LzmaVerif.SyncOps
 /-- operations of `work_queue.rs` in source order -/
 inductive QOp where
   | lock | unlock | storeClosed | loadClosed | notifyOne | notifyAll | wait | pushBack | popFront
+  | branch   -- control flow where the model has none (extracted for `close` only)
 deriving DecidableEq, Repr
 
 /-- operations of `worker_thread_logic` in source order -/
